@@ -39,6 +39,8 @@ def main():
     a3 = "--no-a3" not in args
     args = [a for a in args if not a.startswith("--")]
     names = args or sorted(os.path.basename(os.path.dirname(p)) for p in glob.glob("/verif/seeded/C*-*/patch.diff"))
+    # a seed that only worked through a defect of the clean tree that has since been repaired is no longer a breaking change
+    names = [n for n in names if not json.load(open("/verif/seeded/%s/meta.json" % n)).get("neutralised_by")]
     bad = 0
     with ProcessPoolExecutor(max_workers=int(os.environ.get("VERIF_JOBS", "8"))) as ex:
         for name, res, keys in ex.map(one, [(n, a3) for n in names]):
